@@ -5,11 +5,11 @@ import traceback
 
 import aioftp
 
-from . import coredrv, simnet, vloop
+from . import coredrv, simnet, vloop, watchdog
 from . import world as W
 
 
-def run_clients(cfg, tree, scenarios, *, seg=None, latency=0.0, horizon=None, keep_world=None):
+def _run_clients(cfg, tree, scenarios, *, seg=None, latency=0.0, horizon=None, keep_world=None):
     """scenarios: {session: async fn(client_factory, world) -> value}.  Each runs as its own task.
 
     Returns dict(trace, values, errors, hang, exc)."""
@@ -28,7 +28,7 @@ def run_clients(cfg, tree, scenarios, *, seg=None, latency=0.0, horizon=None, ke
             simnet.CUR_SESSION.set(s)
             try:
                 out["values"][s] = await fn(factory, w)
-            except asyncio.CancelledError:
+            except (asyncio.CancelledError, watchdog.HardHang):
                 raise
             except BaseException as e:  # recorded: the scenario decides what it means
                 out["exc"][s] = e
@@ -46,6 +46,8 @@ def run_clients(cfg, tree, scenarios, *, seg=None, latency=0.0, horizon=None, ke
         out["final_tree"] = w.snapshot()
         if keep_world is not None:
             keep_world(w, out)
+    except watchdog.HardHang:
+        raise
     except BaseException as ex:
         out["crash"] = "".join(traceback.format_exception(type(ex), ex, ex.__traceback__))[-3000:]
     finally:
@@ -54,3 +56,15 @@ def run_clients(cfg, tree, scenarios, *, seg=None, latency=0.0, horizon=None, ke
         except Exception:
             pass
     return out
+
+
+def run_clients(cfg, tree, scenarios, **kw):
+    """_run_clients under the wall-clock guard: code that blocks the thread itself ends the run as a hang."""
+    blank = {"trace": [], "values": {}, "errors": [], "hang": None, "exc": {}, "crash": None, "final_tree": {"d": [], "f": []}}
+    if watchdog.POISONED[0]:
+        return dict(blank, hang="skipped: this process already blocked once (wall-clock guard)")
+    try:
+        with watchdog.guard():
+            return _run_clients(cfg, tree, scenarios, **kw)
+    except watchdog.HardHang as ex:
+        return dict(blank, hang="hard: " + str(ex))
